@@ -195,6 +195,13 @@ func (c TreeCfg) Tree(r *Rand, depth int) any {
 	if depth <= 0 || r.Chance(0.25) {
 		return c.Scalar(r)
 	}
+	if r.Chance(0.06) {
+		// empty containers are containers too
+		if r.Chance(0.5) {
+			return map[string]any{}
+		}
+		return []any{}
+	}
 	if r.Chance(c.PList) {
 		n := r.Range(0, c.MaxWidth)
 		l := make([]any, 0, n)
